@@ -163,6 +163,112 @@ def ref_gcm(key, nonce, header, msg, tlen):
     return C, xor(toy_E(key, j0), S)[:tlen]
 
 
+def ntz(i):
+    n = 0
+    while not i & 1:
+        i >>= 1
+        n += 1
+    return n
+
+
+def ref_ocb(key, nonce, header, msg, tlen, decrypt=False):
+    """RFC 7253 section 4, complete (nonce processing included), over toy_E."""
+    E = lambda b: toy_E(key, b)
+    D = lambda b: toy_E(key, b, inv=True)
+    Lstar = E(bytes(16))
+    Ldollar = dbl(Lstar)
+    L = [dbl(Ldollar)]
+    for _ in range(20):
+        L.append(dbl(L[-1]))
+    # HASH
+    s, off = bytes(16), bytes(16)
+    A = header
+    i = 1
+    while len(A) >= 16:
+        off = xor(off, L[ntz(i)])
+        s = xor(s, E(xor(A[:16], off)))
+        A = A[16:]
+        i += 1
+    if A:
+        off = xor(off, Lstar)
+        s = xor(s, E(xor(A + b"\x80" + bytes(15 - len(A)), off)))
+    # nonce
+    n = bytes([((8 * tlen) % 128) << 1]) + bytes(14 - len(nonce)) + b"\x01" + nonce if len(nonce) < 15 else bytes([(((8 * tlen) % 128) << 1) | 1]) + nonce
+    bottom = n[15] & 0x3F
+    ktop = E(n[:15] + bytes([n[15] & 0xC0]))
+    stretch = ktop + xor(ktop[:8], ktop[1:9])
+    off = ((int.from_bytes(stretch, "big") << bottom) >> 64 & ((1 << 128) - 1)).to_bytes(16, "big")
+    chk = bytes(16)
+    out = b""
+    data = msg
+    i = 1
+    while len(data) >= 16:
+        off = xor(off, L[ntz(i)])
+        blk = data[:16]
+        o = xor(off, (D if decrypt else E)(xor(blk, off)))
+        chk = xor(chk, o if decrypt else blk)
+        out += o
+        data = data[16:]
+        i += 1
+    if data:
+        off = xor(off, Lstar)
+        pad = E(off)
+        o = xor(data, pad[:len(data)])
+        pt = o if decrypt else data
+        chk = xor(chk, pt + b"\x80" + bytes(15 - len(pt)))
+        out += o
+    tag = xor(E(xor(xor(chk, off), Ldollar)), s)[:tlen]
+    return out, tag
+
+
+class OcbNative(object):
+    """What src/raw_ocb.c does behind OCB_start_operation / update / encrypt / decrypt / digest (decided separately by
+    K-pw|c|ocb.crypt on the C evaluator), over the keyed stand-in cipher."""
+
+    def __init__(self, key, offset0):
+        self.key = key
+        E = lambda b: toy_E(key, b)
+        self.Lstar = E(bytes(16))
+        self.Ldollar = dbl(self.Lstar)
+        self.L = [dbl(self.Ldollar)]
+        for _ in range(64):
+            self.L.append(dbl(self.L[-1]))
+        self.offP, self.chk = bytes(offset0), bytes(16)
+        self.offA, self.sum = bytes(16), bytes(16)
+        self.cA = self.cP = 1
+
+    def update(self, data):
+        E = lambda b: toy_E(self.key, b)
+        while len(data) >= 16:
+            self.offA = xor(self.offA, self.L[ntz(self.cA)])
+            self.cA += 1
+            self.sum = xor(self.sum, E(xor(data[:16], self.offA)))
+            data = data[16:]
+        if data:
+            self.sum = xor(self.sum, E(xor(xor(data + b"\x80" + bytes(15 - len(data)), self.offA), self.Lstar)))
+
+    def crypt(self, data, decrypt):
+        out = b""
+        while len(data) >= 16:
+            self.offP = xor(self.offP, self.L[ntz(self.cP)])
+            self.cP += 1
+            o = xor(self.offP, toy_E(self.key, xor(data[:16], self.offP), inv=decrypt))
+            self.chk = xor(self.chk, o if decrypt else data[:16])
+            out += o
+            data = data[16:]
+        if data:
+            self.offP = xor(self.offP, self.Lstar)
+            pad = toy_E(self.key, self.offP)
+            o = xor(data, pad[:len(data)])
+            pt = o if decrypt else data
+            self.chk = xor(self.chk, pt + b"\x80" + bytes(15 - len(pt)))
+            out += o
+        return out
+
+    def digest(self):
+        return xor(toy_E(self.key, xor(xor(self.chk, self.offP), self.Ldollar)), self.sum)
+
+
 # ------------------------------------------------------------------------------------------------ the harness
 class World(object):
     """One interpreter with the stand-in factory installed."""
@@ -175,7 +281,16 @@ class World(object):
                          extra_models={"Crypto.Cipher._mode_gcm._GHASH": self.m_ghash_new,
                                        "Crypto.Cipher._mode_gcm._get_ghash_clmul": lambda i, a, kw, st, node: None,
                                        "Crypto.Random.get_random_bytes": lambda i, a, kw, st, node: bytes(a[0]) if a and isinstance(a[0], int) else ABytes(None),
-                                       "Crypto.Hash.BLAKE2s.new": self.m_blake})
+                                       "Crypto.Hash.BLAKE2s.new": self.m_blake,
+                                       "Crypto.Util._raw_api.VoidPointer": self.m_voidptr, "Crypto.Util._raw_api.SmartPointer": self.m_smartptr,
+                                       "Crypto.Util._raw_api.create_string_buffer": lambda i, a, kw, st, node: bytearray(a[0]) if a and isinstance(a[0], int) and 0 <= a[0] < 100000 else ABytes(None),
+                                       "Crypto.Util._raw_api.get_raw_buffer": lambda i, a, kw, st, node: bytes(a[0]) if a and isinstance(a[0], (bytes, bytearray)) else ABytes(None),
+                                       "Crypto.Util._raw_api.c_uint8_ptr": lambda i, a, kw, st, node: a[0] if a else UNK,
+                                       "Crypto.Util._raw_api.c_size_t": lambda i, a, kw, st, node: a[0] if a else UNK})
+        self.it.method_models.update({"_create_base_cipher": self.m_base, "get": self.m_get, "address_of": self.m_addr, "release": lambda i, base, a, kw, st, node: None})
+        self.it.ffi_models = {"OCB_start_operation": self.f_start, "OCB_update": self.f_update, "OCB_encrypt": self.f_enc, "OCB_decrypt": self.f_dec,
+                              "OCB_digest": self.f_digest, "OCB_stop_operation": lambda i, a, kw, st, node: 0}
+        self.ocb = {}
         self.it.unroll_limit = 4000
         self.it.for_limit = 400
         self.st = State()
@@ -316,6 +431,73 @@ class World(object):
         st.heap[o.ident].update({"kind": "mac", "data": bytes(d) if isinstance(d, (bytes, bytearray)) else None})
         return o
 
+    # OCB: the native layer behind the FFI
+    def m_voidptr(self, i, a, kw, st, node):
+        o = i.new_obj(st, label="voidptr")
+        st.heap[o.ident].update({"kind": "ptr", "val": None})
+        return o
+
+    def m_smartptr(self, i, a, kw, st, node):
+        o = i.new_obj(st, label="smartptr")
+        st.heap[o.ident].update({"kind": "ptr", "val": a[0] if a else None})
+        return o
+
+    def m_base(self, i, base, a, kw, st, node):
+        if self.kind(st, base) != "factory" or not a or not isinstance(a[0], dict):
+            return UNK
+        key = a[0].pop("key", None)
+        o = i.new_obj(st, label="rawcipher")
+        st.heap[o.ident].update({"kind": "ptr", "val": ("raw", bytes(key) if isinstance(key, (bytes, bytearray)) else None)})
+        return o
+
+    def m_get(self, i, base, a, kw, st, node):
+        h = st.heap.get(getattr(base, "ident", -1), {})
+        return h.get("val") if h.get("kind") == "ptr" else UNK
+
+    def m_addr(self, i, base, a, kw, st, node):
+        return ("addr", base.ident) if self.kind(st, base) == "ptr" else UNK
+
+    def f_start(self, i, a, kw, st, node):
+        raw, off0, n, addr = (list(a) + [None] * 4)[:4]
+        if not (isinstance(raw, tuple) and raw[0] == "raw" and raw[1] is not None and isinstance(off0, (bytes, bytearray)) and isinstance(addr, tuple)):
+            return Unknown("int")
+        if n != 16 or len(off0) != 16:
+            return 3
+        hid = len(self.ocb) + 1
+        self.ocb[hid] = OcbNative(raw[1], bytes(off0))
+        st.heap[addr[1]]["val"] = ("ocb", hid)
+        return 0
+
+    def _ocb(self, h):
+        return self.ocb.get(h[1]) if isinstance(h, tuple) and h[0] == "ocb" else None
+
+    def f_update(self, i, a, kw, st, node):
+        o = self._ocb(a[0])
+        if o is None or not isinstance(a[1], (bytes, bytearray, memoryview)) or not isinstance(a[2], int):
+            return Unknown("int")
+        o.update(bytes(a[1])[:a[2]])
+        return 0
+
+    def _f_crypt(self, a, dec):
+        o = self._ocb(a[0])
+        if o is None or not isinstance(a[1], (bytes, bytearray, memoryview)) or not isinstance(a[2], bytearray) or not isinstance(a[3], int) or len(a[2]) < a[3]:
+            return Unknown("int")
+        a[2][:a[3]] = o.crypt(bytes(a[1])[:a[3]], dec)
+        return 0
+
+    def f_enc(self, i, a, kw, st, node):
+        return self._f_crypt(a, False)
+
+    def f_dec(self, i, a, kw, st, node):
+        return self._f_crypt(a, True)
+
+    def f_digest(self, i, a, kw, st, node):
+        o = self._ocb(a[0])
+        if o is None or not isinstance(a[1], bytearray) or a[2] != 16:
+            return Unknown("int") if o is None else 7
+        a[1][:16] = o.digest()
+        return 0
+
     # -- driving
     def create(self, modname, fname, **kwargs):
         mod = self.repo.module(modname)
@@ -377,7 +559,8 @@ def run_mode(repo, name, cfg):
     modname, fname, ref = {"eax": ("Crypto.Cipher._mode_eax", "_create_eax_cipher", lambda: ref_eax(key, nonce, header, msg, tlen)),
                            "siv": ("Crypto.Cipher._mode_siv", "_create_siv_cipher", lambda: ref_siv(key, [x for x in pieces(header, how) if x] if header else [], nonce, msg)),
                            "ccm": ("Crypto.Cipher._mode_ccm", "_create_ccm_cipher", lambda: ref_ccm(key, nonce, header, msg, tlen)),
-                           "gcm": ("Crypto.Cipher._mode_gcm", "_create_gcm_cipher", lambda: ref_gcm(key, nonce, header, msg, tlen))}[name]
+                           "gcm": ("Crypto.Cipher._mode_gcm", "_create_gcm_cipher", lambda: ref_gcm(key, nonce, header, msg, tlen)),
+                           "ocb": ("Crypto.Cipher._mode_ocb", "_create_ocb_cipher", lambda: ref_ocb(key, nonce, header, msg, tlen))}[name]
     want_c, want_t = ref()
 
     def make():
@@ -410,8 +593,8 @@ def run_mode(repo, name, cfg):
         got_c, got_t = r
     else:
         got_c = b""
-        for p in pieces(msg, how):
-            r = w.call(o, "encrypt", p)
+        for p in pieces(msg, how) + ([None] if name == "ocb" else []):
+            r = w.call(o, "encrypt", p) if p is not None else w.call(o, "encrypt")
             if not isinstance(r, bytes):
                 return "encrypt: %r" % (r,)
             got_c += r
@@ -443,8 +626,8 @@ def run_mode(repo, name, cfg):
             r = w.call(o, "decrypt_and_verify", c2, t2)
         else:
             r = b""
-            for p in pieces(c2, how):
-                x = w.call(o, "decrypt", p)
+            for p in pieces(c2, how) + ([None] if name == "ocb" else []):
+                x = w.call(o, "decrypt", p) if p is not None else w.call(o, "decrypt")
                 if not isinstance(x, bytes):
                     r = x
                     break
@@ -479,6 +662,8 @@ def configs(name, thorough=False):
                     variants = [(pat(16, 1), 16), (None, 16), (pat(5, 9), 16)]
                 elif name == "ccm":
                     variants = [(pat(11, 1), 16), (pat(7, 2), 4), (pat(13, 3), 10)]
+                elif name == "ocb":
+                    variants = [(pat(15, 1), 16), (pat(12, 2), 8), (pat(1, 3), 12), (bytes(11) + b"\x3f", 16)]
                 else:
                     variants = [(pat(12, 1), 16), (pat(1, 2), 4), (pat(16, 3), 13), (pat(33, 4), 16)]
                 if not thorough:
@@ -488,15 +673,16 @@ def configs(name, thorough=False):
     return out
 
 
-def compose_tables(check, ctx, modes=("eax", "siv", "ccm", "gcm"), rule="K-pw"):
+def compose_tables(check, ctx, modes=("eax", "siv", "ccm", "gcm", "ocb"), rule="K-pw"):
     from ..par import pmap
     repo = ctx.repo
     th = ctx.tier == "thorough"
     CITE = {"eax": "EAX (Bellare, Rogaway, Wagner): N' = OMAC^0(N), H' = OMAC^1(H), C = CTR_N'(M), T = N' xor H' xor OMAC^2(C), first tau bytes",
             "siv": "RFC 5297: V = S2V(K1, AD.., [N], P), C = CTR(K2, V and not the two bits 31/63, P), output (C, V)",
             "ccm": "SP 800-38C: B0 / associated-data header / CBC-MAC, S0 = E(Ctr0), C = P xor S1.., T = MSB_tlen(T xor S0)",
-            "gcm": "SP 800-38D: J0 from the IV, C = GCTR(inc32(J0), P), T = MSB_t(E(J0) xor GHASH_H(A || 0* || C || 0* || len(A) || len(C)))"}
-    SRC = {"eax": "Crypto.Cipher._mode_eax", "siv": "Crypto.Cipher._mode_siv", "ccm": "Crypto.Cipher._mode_ccm", "gcm": "Crypto.Cipher._mode_gcm"}
+            "gcm": "SP 800-38D: J0 from the IV, C = GCTR(inc32(J0), P), T = MSB_t(E(J0) xor GHASH_H(A || 0* || C || 0* || len(A) || len(C)))",
+            "ocb": "RFC 7253: nonce = taglen || 0* || 1 || N, Offset_0 from Ktop / Stretch / bottom, whole blocks and the final partial block handed to the native layer, tag = MSB_taglen"}
+    SRC = {"eax": "Crypto.Cipher._mode_eax", "siv": "Crypto.Cipher._mode_siv", "ccm": "Crypto.Cipher._mode_ccm", "gcm": "Crypto.Cipher._mode_gcm", "ocb": "Crypto.Cipher._mode_ocb"}
     total = 0
     for name in modes:
         cfgs = configs(name, th)
